@@ -2,7 +2,7 @@
 # Re-run every registered check (quick tier) against each seeded change kept under /verif/seeded,
 # six scratch worktrees at a time. C02-F is only visible to the thorough tier (DBGASSERT1).
 cd /verif
-mapfile -t L < <(ls seeded | grep -E "^C[0-9]+-[A-H]$")
+mapfile -t L < <(ls seeded | grep -E "^C[0-9]+-[A-J]$")
 n=${#L[@]}
 out=$(mktemp -d)
 for w in 0 1 2 3 4 5; do
